@@ -17,6 +17,7 @@ import (
 	"sync"
 	"sync/atomic"
 	"testing"
+	"time"
 	"unsafe"
 
 	"verif/mc/ev"
@@ -265,6 +266,7 @@ type explorer struct {
 	abandoned                                                                     atomic.Int64
 	splitAt                                                                       int
 	robust                                                                        bool
+	until                                                                         time.Time
 	tasks                                                                         [][]op
 }
 
@@ -312,8 +314,8 @@ func (x *explorer) visit(w *world, path []op) bool {
 	if len(path) >= x.depth {
 		return true
 	}
-	if x.r.OutOfTime() {
-		x.r.Incomplete("time budget: some subtrees not explored")
+	if x.r.OutOfTime() || (!x.until.IsZero() && time.Now().After(x.until)) {
+		x.r.Incomplete(fmt.Sprintf("time budget: some subtrees of the depth-%d exploration (ids=%d, counts=%d) not explored", x.depth, x.cfg.ids, x.cfg.counts))
 		return true
 	}
 	here, wbHere := w.inner.Load(), w.wb
@@ -392,8 +394,8 @@ func (x *explorer) visitRobust(path []op) {
 	if len(path) >= x.depth {
 		return
 	}
-	if x.r.OutOfTime() {
-		x.r.Incomplete("time budget: some subtrees not explored")
+	if x.r.OutOfTime() || (!x.until.IsZero() && time.Now().After(x.until)) {
+		x.r.Incomplete(fmt.Sprintf("time budget: some subtrees of the depth-%d exploration (ids=%d, counts=%d) not explored", x.depth, x.cfg.ids, x.cfg.counts))
 		return
 	}
 	alpha := replay(path).alphabet(x.cfg)
@@ -487,7 +489,10 @@ func TestCheck(t *testing.T) {
 		_ = pprof.StartCPUProfile(fh)
 		defer pprof.StopCPUProfile()
 	}
-	r.SetBudget(ev.Pick(r, 150, 1700))
+	budget := ev.Pick(r, 170, 1500)
+	r.SetBudget(budget)
+	t0 := time.Now()
+	share := func(f float64) time.Time { return t0.Add(time.Duration(float64(budget)*f) * time.Second) }
 	if err := layoutOK(); err != nil {
 		r.Infra("%v", err)
 	}
@@ -499,12 +504,12 @@ func TestCheck(t *testing.T) {
 	classesBefore := classPoolDigest()
 
 	depth := ev.Pick(r, 4, 5)
-	x := &explorer{r: r, c: chk, cfg: alphaCfg{ids: 3, counts: 3, maxTx: 4}, depth: depth}
+	x := &explorer{r: r, c: chk, cfg: alphaCfg{ids: 3, counts: 3, maxTx: 4}, depth: depth, until: share(0.6)}
 	runExplorer(x)
 	r.Set("A_depth", int64(depth))
 	if r.Thorough() && !r.OutOfTime() {
 		// depth 6 with the identifier/count alphabet halved (x,y; 0..1 txs + deltas); everything else unchanged
-		x6 := &explorer{r: r, c: chk, cfg: alphaCfg{ids: 2, counts: 2, maxTx: 3}, depth: 6}
+		x6 := &explorer{r: r, c: chk, cfg: alphaCfg{ids: 2, counts: 2, maxTx: 3}, depth: 6, until: share(0.8)}
 		runExplorer(x6)
 		r.Set("A6_nodes", x6.nodes.Load())
 		r.Set("A6_transitions", x6.transitions.Load())
@@ -512,7 +517,7 @@ func TestCheck(t *testing.T) {
 	}
 	// cross-validation of the memoisation: a shallower exploration with every functional check re-evaluated on every path
 	chk2 := &checker{r: r, canons: canons, noMemo: true, tallest: canons[4]}
-	x2 := &explorer{r: r, c: chk2, cfg: x.cfg, depth: ev.Pick(r, 2, 3)}
+	x2 := &explorer{r: r, c: chk2, cfg: x.cfg, depth: ev.Pick(r, 2, 3), until: share(0.85)}
 	runExplorer(x2)
 	r.Set("A_nomemo_depth", int64(x2.depth))
 	r.Set("A_nomemo_view_evaluations", chk2.evalReal.Load())
